@@ -340,9 +340,9 @@ def r4_dirent(ctx, F, table):
     gate = None
     for c in wa:
         gs = [(vf.render(strip(cond), b, roots, short=True, vfx=v), lab) for (cond, lab, u) in v.guards(c.bb)]
-        ok = (exp["gate"], 0) in gs
+        ok = (vf.neg_fact(exp["gate"]), "otherwise") in gs
         ctx.check("R4-dirent", "gated@%d" % wa.index(c), ok,
-                  "add_dirent write #%d is not on the false edge of the space check `%s` (its guards: %s)" % (wa.index(c), exp["gate"], [g for g in gs if g[0].startswith("Lt(")]),
+                  "add_dirent write #%d is not on the false edge of the space check `%s` (its guards: %s)" % (wa.index(c), exp["gate"], [g for g in gs if g[0].startswith(("Lt(", "Le("))]),
                   loc=c.loc())
     rt = vf.render(strip(v.ret()), b, roots, short=True, vfx=v)
     if os.environ.get("FBR_DEBUG"):
